@@ -112,6 +112,7 @@ def fresh_probe(spec):
 
 
 def run(ctx):
+    from harness import common as common_mod
     ctx.extra["rule"] = RULE
     ctx.assumptions += ["argument immutability and identity-level aliasing are validated dynamically, not proved",
                         "vertices are ints so that no result depends on hash randomisation"]
@@ -154,7 +155,11 @@ def run(ctx):
         ctx.tag("probe_" + probe["fn"])
         for spec in hist + [probe]:
             try:
-                res, before, after = c17_calls.do_call(spec)
+                with common_mod.cpu_limit(120):
+                    res, before, after = c17_calls.do_call(spec)
+            except common_mod.ImplHang as e:
+                ctx.mismatch("c17.call", "call %r did not return: %s" % (spec, e), case)
+                res, before, after = ["did-not-return"], [], []
             except AssertionError as e:
                 ctx.violation("argument-modified", "call %r: %s" % (spec, e), case)
                 res, before, after = None, [], []
